@@ -14,7 +14,7 @@ BOUNDS = {
     "quick": "the 15 divisors of 360 between 5 and 60 as angular step (thorough: all 19 from 1 degree); sample = 3 distinct symbolic points, each "
              "repeated 17-20 times (n = 51..60, ties allowed), alpha in {0.05, 0.1, 0.25}; order statistics by an "
              "ite sorting network (no forks), trigonometric values are numpy's doubles for the concrete direction grid",
-    "thorough": "4 distinct points (3 for alpha = 0.25 with <= 10 directions, where the 4-point queries were not decided), five alpha values, n up to 80",
+    "thorough": "4 distinct points for alpha <= 0.1, 3 for alpha in {0.25, 0.3} (the 4-point queries there were not decided reliably), five alpha values, n up to 80",
 }
 OUTSIDE = [
     "rounding of the line-intersection formula (Real mode, 1e-6 relative tolerance on the tangent-line offset)",
@@ -186,12 +186,13 @@ def obligations(tier):
         if tier == "quick" and d < 5:
             continue   # 360..90 directions: minutes each, thorough tier
         for alpha in ((0.1,) if tier == "quick" and d not in (5, 60) else ((0.05, 0.1, 0.25) if tier == "quick" else (0.01, 0.05, 0.1, 0.25, 0.3))):
-            K = 3 if tier == "quick" or d < 4 else 4
-            if alpha == 0.25 and d >= 36:
-                K = 3   # 4 equal groups put the 0.75-quantile between two distinct points for every direction at
-                        # once: the interpolated (non-linear) queries for <= 10 directions were not decided in 900 s
+            K = 3 if tier == "quick" or d < 5 else 4
+            if alpha >= 0.25:
+                K = 3   # with 4 equal groups the (1-alpha)-quantile falls between two DISTINCT points for every
+                        # direction at once: those interpolated (non-linear) queries were not decided reliably
+                        # (900 s for 6 directions; timeouts under load for 12-18 directions)
             rep = 17 + (d % 4) if K == 3 else 14 + (d % 4)
             yield ("tangent", h_tangent, {"deg_step": d, "distinct": K, "repeat": rep, "alpha": alpha},
-                   {"timeout_ms": 120000})
+                   {"timeout_ms": 120000 if tier == "quick" else 900000})
     for alpha in (0.3, 0.07, 0.013):
         yield ("default_n", h_default_n, {"alpha": alpha}, {})
